@@ -56,22 +56,38 @@ def norm(text):
     return lines
 
 
+def matches(actual_text, expected_text):
+    """the demo passes if its output is what the expected file lists (files are free-form: allow commentary around it)"""
+    a = norm(actual_text)
+    if a == norm(expected_text):
+        return True
+    e = [ADDR.sub("[MEMADDR]", l.strip()) for l in expected_text.splitlines()]
+    a = [l.strip() for l in a]
+    if not a:
+        return False
+    for i in range(len(e) - len(a) + 1):
+        if e[i:i + len(a)] == a:
+            return True
+    return False
+
+
 def run_demo(pid, n, release):
     """-> (passes, transcript)"""
     d = SRC % pid
     prof = "--release" if release else ""
-    if os.path.exists("%s/demo%d.yl" % (d, n)):
+    prefer_rs = os.path.exists("%s/demo%d.rs" % (d, n)) and os.path.exists("%s/run_demo.sh" % d)
+    if os.path.exists("%s/demo%d.yl" % (d, n)) and not prefer_rs:
         rc, out = sh("cargo build --manifest-path %s/Cargo.toml --offline -q %s -p yarel-cli >/dev/null 2>&1; cargo run --manifest-path %s/Cargo.toml --offline -q %s -p yarel-cli -- demo%d.yl 2>/dev/null" % (
             WT, prof, WT, prof, n), cwd=d, timeout=600)
         exp = open("%s/demo%d.expected" % (d, n)).read()
-        ok = norm(out) == norm(exp)
+        ok = matches(out, exp)
         return ok, "exit=%d\n%s" % (rc, out[-1500:])
     if os.path.exists("%s/demo%d.repl" % (d, n)):
         rc, out = sh("cargo run --offline -q %s -p yarel-cli < %s/demo%d.repl 2>&1; echo \"exit status: $?\"" % (prof, d, n), cwd=WT, timeout=600)
         exp = open("%s/demo%d.expected" % (d, n)).read()
         ok = norm(out) == norm(exp)
         return ok, out[-1500:]
-    if os.path.exists("%s/demo%d.rs" % (d, n)) and not os.path.exists("%s/demo%d.yl" % (d, n)):
+    if os.path.exists("%s/demo%d.rs" % (d, n)):
         src = open("%s/demo%d.rs" % (d, n)).read()
         if "#[test]" in src:
             dst = "%s/yarel/tests/demo%d.rs" % (WT, n)
